@@ -36,6 +36,8 @@ enum Case {
     /// C04's fault menu and C03's below-threshold menu through the re-randomized aggregate
     Faults { suite: String, n: u16, t: u16, signers: u32, cheaters: u32, kind: super::c04::Kind, seed: String },
     Below { suite: String, n: u16, t: u16, signers: u32, seed: String },
+    /// one large re-randomized session (the hashed commitment list is tens of kilobytes)
+    Large { suite: String, n: u16, signers: u16, seed: String },
 }
 
 impl Prop for C17 {
@@ -88,6 +90,10 @@ impl Prop for C17 {
             }
         }
         for suite in REAL_SUITES {
+            let k = if suite == "ed448" { tier.pick(90u16, 130u16) } else { tier.pick(130u16, 260u16) };
+            out.push(serde_json::to_value(Case::Large { suite: suite.to_string(), n: k + 20, signers: k, seed: format!("s{seed}") }).unwrap());
+        }
+        for suite in REAL_SUITES {
             for (n, t) in [(2u16, 2u16), (3, 2), (4, 3)] {
                 if suite == "ed448" && n > 3 {
                     continue;
@@ -116,7 +122,7 @@ impl Prop for C17 {
     fn run(&self, case: &Value) -> Outcome {
         let c: Case = serde_json::from_value(case.clone()).expect("case");
         let suite = match &c {
-            Case::Session { suite, .. } | Case::Binding { suite, .. } | Case::Faults { suite, .. } | Case::Below { suite, .. } => suite.clone(),
+            Case::Session { suite, .. } | Case::Binding { suite, .. } | Case::Faults { suite, .. } | Case::Below { suite, .. } | Case::Large { suite, .. } => suite.clone(),
         };
         with_suite!(suite.as_str(), run_case, &c)
     }
@@ -459,6 +465,54 @@ fn run_case<C: Suite>(c: &Case) -> Outcome {
             let pkg2 = pkg.clone();
             let agg = move |sh: &BTreeMap<Id<C>, SignatureShare<C>>, cd: CheaterDetection| C::w_rr_aggregate_custom(&pkg2, sh, &pkp, cd, &params);
             super::c04::check_modes::<C>(&mut o, &tag, &ctx, &s, &honest, &errs, &agg, &bad, rr.params.randomized_verifying_key(), &m);
+        }
+        Case::Large { n, signers, seed, .. } => {
+            let grp = match make_group::<C>(KeySrc::Dealer, *n, 2, IdKind::Seq, seed) {
+                Ok(g) => g,
+                Err(e) => {
+                    o.fail(format!("{tag}/setup"), e);
+                    return o;
+                }
+            };
+            let s: Vec<_> = grp.ids.iter().rev().take(*signers as usize).rev().copied().collect();
+            let m = message(2);
+            let ctx = format!("large n={n} |S|={signers}");
+            let (nonces, comms) = commit_all::<C>(&grp.kps, &s, &format!("{seed}:large"));
+            let pkg = SigningPackage::<C>::new(comms.clone(), &m);
+            let vk = *grp.pkp.verifying_key();
+            o.eval(true);
+            let rr = match make_params::<C>(&RSrc::Seeded("large".into()), &vk, &comms, seed) {
+                Ok(r) => r,
+                Err(e) => {
+                    o.fail(format!("{tag}/params-failed"), format!("{ctx}: {e}"));
+                    return o;
+                }
+            };
+            let sd = rr.seed.clone().unwrap();
+            let want = C::ext_hrandomizer(&[sd.clone(), ref_encode_commitments::<C>(&comms)].concat());
+            if rr.params.randomizer().serialize() != want {
+                o.fail(format!("{tag}/randomizer-not-hash-of-seed-and-commitments"), ctx.clone());
+            }
+            let mut shares = BTreeMap::new();
+            for id in &s {
+                match C::w_rr_sign(&pkg, &nonces[id], &grp.kps[id], &sd) {
+                    Ok(sh) => {
+                        shares.insert(*id, sh);
+                    }
+                    Err(e) => {
+                        o.fail(format!("{tag}/sign-refused"), format!("{ctx}: {e:?}"));
+                        return o;
+                    }
+                }
+            }
+            match C::w_rr_aggregate(&pkg, &shares, &grp.pkp, &rr.params) {
+                Ok(sig) => match verify_everywhere::<C>(rr.params.randomized_verifying_key(), &m, &sig) {
+                    Ok(()) => o.count("sessions_verified_under_randomized_key", 1),
+                    Err(e) => o.fail(format!("{tag}/not-valid-under-randomized-key"), format!("{ctx}: {e}")),
+                },
+                Err(e) => o.fail(format!("{tag}/aggregate-failed"), format!("{ctx}: {e:?}")),
+            }
+            o.class("large");
         }
         Case::Below { n, t, signers, seed, .. } => {
             let grp = cached_group::<C>(KeySrc::Dealer, *n, *t, IdKind::U16x, seed).expect("group");
